@@ -314,7 +314,9 @@ pub fn run_escape(re: &str, text: &str) -> Outcome {
     let observed = match r { Ok(s) => s, Err(_) => "panic".to_string() };
     Outcome { fails: observed != expected, observed, expected }
 }
-const ESCAPE_FORMS: &[(&str, &str)] = &[("\\x{61}", "a"), ("\\x{e9}", "é"), ("\\u{e9}", "é"), ("\\U{1F600}", "\u{1F600}"), ("[\\x{61}-\\x{63}]+", "abc"), ("\\x61", "a"), ("\\u00e9", "é"), ("\\U0001F600", "\u{1F600}"), ("\\xg", "xg")];
+const ESCAPE_FORMS: &[(&str, &str)] = &[("\\x{61}", "a"), ("\\x{e9}", "é"), ("\\u{e9}", "é"), ("\\U{1F600}", "\u{1F600}"), ("[\\x{61}-\\x{63}]+", "abc"), ("\\x61", "a"), ("\\u00e9", "é"), ("\\U0001F600", "\u{1F600}"), ("\\xg", "xg"),
+    // x mode switched on in the text itself: a comment at the end must not swallow the anchoring group's `)`
+    ("(?x)a#b", "a"), ("(?x)a b # c", "ab"), ("(?x)a", "a")];
 
 /// One flag of the %grmtools section, written with one value, judged by what the lexer then does on one input: the
 /// flag in force is the one written (and no other flag changes with it).
